@@ -3,7 +3,7 @@
 From Coq Require Import List Arith NArith ZArith Bool String.
 From Coq.Strings Require Import Byte.
 From Peppi Require Import Base.Bytes Base.Outcome Gen.Funs Model.Ubjson Model.Start Model.Parse Model.Reader Model.Writer Model.Recorder
-  Proofs.TableFacts Proofs.ReadProof Proofs.WriteProof Proofs.Corollaries Proofs.C08Proof.
+  Proofs.FrameStep Proofs.TableFacts Proofs.ReadProof Proofs.WriteProof Proofs.Corollaries Proofs.C08Proof Proofs.Irregular Proofs.Permute Proofs.Irregular2.
 Import ListNotations.
 
 (* for the game g of EVERY well-formed replay (Game End and metadata present or missing): the written file is
@@ -26,5 +26,70 @@ Theorem C17_unknown_events_dropped : forall s code size payload rest,
   parse_event s (n2b code :: payload ++ rest) = Ok (code, add_bytes_read s (size + 1)%N, rest).
 Proof. exact c08_unknown_event_skipped. Qed.
 
+(* tolerated irregularities, for EVERY well-formed replay r and EVERY irregular rendering x of it (Proofs/Irregular.v
+   wf_irreg: events with codes peppi does not know interleaved anywhere between Game Start and Game End -- also between
+   splitter blocks and inside frames --, with their payload-table entries; junk bytes after the Game End inside the raw
+   element that do not look like a second Game End): the reader accepts it, whole, as exactly the game of r ... *)
+Theorem C17_irregular_read : forall r st x h,
+  wf_replay r = true -> game_start (r_start r) = ROk st -> wf_irreg r st x ->
+  slp_read {| o_skip := false; o_hash := h |} (emit_irr r x)
+  = Ok (with_hashed (game_of {| o_skip := false; o_hash := h |} r st (end_of r))
+                    (if h then Some (List.length (emit_irr r x)) else None), []).
+Proof. exact read_irregular. Qed.
+
+(* ... and so the written file is the canonical stream: unknown and trailing content dropped, declared raw length =
+   actual length, it re-reads to the same start, end, metadata, gecko codes, frames and quirks, and re-writing it
+   reproduces it byte for byte *)
+Theorem C17_irregular_fixed_point : forall r st x h,
+  wf_replay r = true -> game_start (r_start r) = ROk st -> wf_irreg r st x ->
+  exists g,
+    slp_read {| o_skip := false; o_hash := h |} (emit_irr r x) = Ok (g, []) /\
+    slp_write g = Ok (emit r) /\
+    parse_header (emit r) = Ok (nn (List.length (raw_of r)), raw_of r ++ emit_meta (r_meta r) ++ [x7d]) /\
+    exists g', slp_read {| o_skip := false; o_hash := h |} (emit r) = Ok (g', []) /\
+               g_start g' = g_start g /\ g_end g' = g_end g /\ g_meta g' = g_meta g /\ g_gecko g' = g_gecko g /\
+               g_frames g' = g_frames g /\ g_quirk g' = g_quirk g /\
+               slp_write g' = Ok (emit r).
+Proof. exact c17_irregular. Qed.
+
+(* ... including non-canonical event order inside a frame (wf_irreg2: the known events are the canonical sequence up
+   to exchanges of adjacent independent frame-interior events -- an Item with a Pre/Post, Pre/Post events of different
+   characters; a character's Pre stays before its Post, items keep their order; before 2.2, where the first Pre opens
+   the frame, only the exchanges that are sound there) *)
+Theorem C17_reordered_read : forall r st x h,
+  wf_replay r = true -> game_start (r_start r) = ROk st -> wf_irreg2 r st x ->
+  slp_read {| o_skip := false; o_hash := h |} (emit_irr r x)
+  = Ok (with_hashed (game_of {| o_skip := false; o_hash := h |} r st (end_of r))
+                    (if h then Some (List.length (emit_irr r x)) else None), []).
+Proof. exact read_irregular2. Qed.
+
+Theorem C17_reordered_fixed_point : forall r st x h,
+  wf_replay r = true -> game_start (r_start r) = ROk st -> wf_irreg2 r st x ->
+  exists g, slp_read {| o_skip := false; o_hash := h |} (emit_irr r x) = Ok (g, []) /\ slp_write g = Ok (emit r) /\
+    parse_header (emit r) = Ok (nn (List.length (raw_of r)), raw_of r ++ emit_meta (r_meta r) ++ [x7d]) /\
+    exists g', slp_read {| o_skip := false; o_hash := h |} (emit r) = Ok (g', []) /\
+       g_start g' = g_start g /\ g_end g' = g_end g /\ g_meta g' = g_meta g /\ g_gecko g' = g_gecko g /\
+       g_frames g' = g_frames g /\ g_quirk g' = g_quirk g /\ slp_write g' = Ok (emit r).
+Proof. exact c17_irregular2. Qed.
+
+(* the exchanges really are wider than the identity: an Item may be moved behind the following Post (>= 2.2) *)
+Theorem C17_reordered_nonvacuous : forall r st l1 a b l2,
+  wf_replay r = true -> game_start (r_start r) = ROk st -> vgte (r_ver r) 2 2 = true ->
+  canon_events r st = l1 ++ (Event_Item, a) :: (Event_FramePost, b) :: l2 ->
+  wf_irreg2 r st {| ig_extra := []; ig_events := l1 ++ (Event_FramePost, b) :: (Event_Item, a) :: l2; ig_junk := [] |}.
+Proof. exact wf_irreg2_item_post. Qed.
+
+(* the canonical rendering is an instance (non-vacuity of wf_irreg) *)
+Theorem C17_irregular_nonvacuous : forall r st,
+  wf_replay r = true -> game_start (r_start r) = ROk st ->
+  wf_irreg r st (irreg0 r st) /\ emit_irr r (irreg0 r st) = emit r.
+Proof. intros r st Hwf Hst. split; [apply wf_irreg0; assumption|apply emit_irr0; assumption]. Qed.
+
 Print Assumptions C17_fixed_point.
+Print Assumptions C17_irregular_read.
+Print Assumptions C17_irregular_fixed_point.
+Print Assumptions C17_irregular_nonvacuous.
+Print Assumptions C17_reordered_read.
+Print Assumptions C17_reordered_fixed_point.
+Print Assumptions C17_reordered_nonvacuous.
 Print Assumptions C17_unknown_events_dropped.
